@@ -47,8 +47,9 @@ def run_part(ctx, scenarios, max_scenarios=None, timeout=1800):
     # numeric-looking keys are of no use to TLC)
     keep = ("ev", "scn", "n", "want", "wr", "refuse", "downs", "ok", "holders", "askedw", "seq")
     slim = [{k: v for k, v in e.items() if k in keep} for e in events]
-    ctx.judge(SD, "KeepE2ETrace", "Judge_KeepE2E.cfg", slim, scenario_of={s["id"]: s for s in scns},
-              max_rejects=8)
+    # growth of the specification beyond C12's statement: rejections are drift (see checks/C12.py)
+    ctx.judge_as_drift("e2e_real_keepstores", SD, "KeepE2ETrace", "Judge_KeepE2E.cfg", slim,
+                       scenario_of={s["id"]: s for s in scns}, max_rejects=8)
     return len(traces)
 
 
